@@ -2,3 +2,4 @@
 pub mod engine;
 pub mod models;
 pub mod props;
+pub mod targets;
